@@ -45,4 +45,13 @@ __CPROVER_ensures((__CPROVER_return_value != 0 && a == g_memcmp_watch) ==>
      (__CPROVER_return_value < 0) == (C19_UC(a, g_memcmp_d) < C19_UC(b, g_memcmp_d)) &&
      C19_IMP(g_memcmp_k < g_memcmp_d, C19_UC(a, g_memcmp_k) == C19_UC(b, g_memcmp_k))));
 
+/* ------------------------------------------------------------------ strlen (ISO 7.24.6.3) */
+size_t g_strlen_L; /* in: witness of "s is a string": s[0..L] readable and s[L] == 0 (earlier NULs allowed) */
+size_t g_strlen_k; /* in: ghost index */
+size_t strlen(const char *s)
+__CPROVER_requires(g_strlen_L < ((size_t)1 << 40) && __CPROVER_r_ok(s, g_strlen_L + 1) && s[g_strlen_L] == 0)
+__CPROVER_assigns()
+__CPROVER_ensures(__CPROVER_return_value <= g_strlen_L && s[__CPROVER_return_value] == 0 &&
+                  C19_IMP(g_strlen_k < __CPROVER_return_value, s[g_strlen_k] != 0));
+
 #endif
